@@ -412,13 +412,14 @@ func (ri *ReservationInfo) UpdateReservation(r *schedulingv1alpha1.Reservation) 
 	sort.Slice(resourceNames, func(i, j int) bool {
 		return resourceNames[i] < resourceNames[j]
 	})
+	oldResourceNames := ri.ResourceNames
 	ri.ResourceNames = resourceNames
 
 	ri.Reservation = r
 	ri.Pod = reservationutil.NewReservePod(r)
 	ri.AllocatablePorts = util.RequestedHostPorts(ri.Pod)
 	if ri.Allocated != nil {
-		ri.Allocated = quotav1.Mask(ri.Allocated, ri.ResourceNames)
+		ri.Allocated = ri.maskOrRebuildAllocated(oldResourceNames)
 	}
 	reserved := util.GetNodeReservationFromAnnotation(r.Annotations)
 	if len(reserved) > 0 {
@@ -454,11 +455,12 @@ func (ri *ReservationInfo) UpdatePod(pod *corev1.Pod) {
 	sort.Slice(resourceNames, func(i, j int) bool {
 		return resourceNames[i] < resourceNames[j]
 	})
+	oldResourceNames := ri.ResourceNames
 	ri.ResourceNames = resourceNames
 
 	ri.Pod = pod
 	ri.AllocatablePorts = util.RequestedHostPorts(pod)
-	ri.Allocated = quotav1.Mask(ri.Allocated, ri.ResourceNames)
+	ri.Allocated = ri.maskOrRebuildAllocated(oldResourceNames)
 	reserved := util.GetNodeReservationFromAnnotation(pod.Annotations)
 	if len(reserved) > 0 {
 		reserved = quotav1.Mask(reserved, ri.ResourceNames)
@@ -485,6 +487,28 @@ func (ri *ReservationInfo) UpdatePod(pod *corev1.Pod) {
 		parseError = utilerrors.NewAggregate(parseErrors)
 	}
 	ri.ParseError = parseError
+}
+
+// maskOrRebuildAllocated returns Allocated for the current ResourceNames after the reservation object changed.
+// While the resource names only shrink, masking the old amount is enough. When a resource name is reserved now
+// that was not reserved before, the amounts the assigned pods request for it were never counted (they were
+// masked away when the pods were added), so Allocated is rebuilt from the assigned pods.
+func (ri *ReservationInfo) maskOrRebuildAllocated(oldResourceNames []corev1.ResourceName) corev1.ResourceList {
+	grown := false
+	for _, name := range ri.ResourceNames {
+		if !quotav1.Contains(oldResourceNames, name) {
+			grown = true
+			break
+		}
+	}
+	if !grown || len(ri.AssignedPods) == 0 {
+		return quotav1.Mask(ri.Allocated, ri.ResourceNames)
+	}
+	allocated := corev1.ResourceList{}
+	for _, requirement := range ri.AssignedPods {
+		allocated = quotav1.Add(allocated, quotav1.Mask(requirement.Requests, ri.ResourceNames))
+	}
+	return allocated
 }
 
 func (ri *ReservationInfo) AddAssignedPod(pod *corev1.Pod) {
